@@ -153,6 +153,15 @@ def run_harnesses(hs, repo, verif, jobs=4):
                     text = f.read()
                 with open(os.path.join(scratch, h['append_to']), 'a') as f:
                     f.write('\n' + text)
+            # same reason as in replay.run_module: stamp the crate sources after the lock so that cargo rebuilds this
+            # scratch copy instead of trusting artifacts another check left in the shared target directory
+            _now = time.time()
+            for _root, _dirs, _files in os.walk(os.path.join(scratch, 'src')):
+                for _fn in _files:
+                    try:
+                        os.utime(os.path.join(_root, _fn), (_now, _now))
+                    except OSError:
+                        pass
             # compile once (first harness) before fanning out, so that the parallel runs only verify
             first = _run_one(group[0], scratch, verif, feat)
             rs = [first]
@@ -172,6 +181,13 @@ def run_harnesses(hs, repo, verif, jobs=4):
                     import fcntl
                     with open(os.path.join(verif, '.cache', 'cargo-test.lock'), 'w') as lk:
                         fcntl.flock(lk, fcntl.LOCK_EX)
+                        _now = time.time()
+                        for _root, _dirs, _files in os.walk(os.path.join(scratch, 'src')):
+                            for _fn in _files:
+                                try:
+                                    os.utime(os.path.join(_root, _fn), (_now, _now))
+                                except OSError:
+                                    pass
                         rc = subprocess.run(['cargo', 'test', '--offline', '--lib', '--no-default-features', '--features',
                                              'serializer,xml,RfsmExpressionModel', h.get('replay_filter', 'verif_replay_cex'), '--', '--test-threads', '1'],
                                             cwd=scratch, env=env2, stdout=subprocess.PIPE, stderr=subprocess.STDOUT, text=True, timeout=900)
